@@ -305,6 +305,10 @@ func init() {
 		"verifIsSymbolic": func(fr *frame, args []value) (value, bool) {
 			return hasSym(args[0]), true
 		},
+		"verifIsFalse": func(fr *frame, args []value) (value, bool) {
+			b, ok := args[0].(bool)
+			return ok && !b, true
+		},
 		"verifSymbolic": func(fr *frame, args []value) (value, bool) {
 			return true, true
 		},
